@@ -344,6 +344,51 @@ def rule_i(ctx):
                    'paths)' % (n_end, n_parse))
 
 
+def rule_j(ctx):
+    """Message transports, receive side (shared base class): each queued element is either an exception - and only
+    then raised - or is yielded as the one frame of its message, invalid-frame markers included (the marker is not an
+    exception and not a Frame; raising it kills the receiver)."""
+    rep = ctx.report
+    c = ctx.repo.cls('rsocket.transports.abstract_messaging:AbstractMessagingTransport')
+    f = c.lookup('next_frame_generator')
+    if f is None:
+        raise AnalysisError('C04.h: AbstractMessagingTransport.next_frame_generator vanished')
+    ok = True
+    why = ''
+    n_raise = n_ret = 0
+    for p in ctx.paths(f, c, inline_depth=0, exc=()):
+        gets = [e for e in p.events if e.kind == 'call' and e.data.get('name') == 'get' and e.data.get('awaited')]
+        if len(gets) != 1:
+            ok, why = False, 'a call does not take exactly one element from the incoming queue'
+            continue
+        el = ('awaited', strip_epoch(gets[0].data['value'].term))
+        tests = [x for x in p.events if x.kind == 'cond' and x.data['key'][0] == 'isinstance' and
+                 strip_epoch(x.data['key'][1]) in (el, el[1])]
+        is_exc = None
+        for x in tests:
+            names = {str(nm).split(':')[-1].split('.')[-1] for nm in x.data['key'][2]}
+            if names and names <= {'Exception', 'BaseException'} | {k.name for k in ctx.repo.all_classes()
+                                                                     if k.name.endswith(('Error', 'Exception'))}:
+                is_exc = x.data['value']
+        if p.outcome == 'raise':
+            n_raise += 1
+            if strip_epoch(p.value.term) in (el, el[1]) and is_exc is not True:
+                ok, why = False, ('the element taken from the queue is raised without being known to be an exception '
+                                  '(an invalid-frame marker is neither an exception nor a Frame)')
+        elif p.outcome == 'return':
+            n_ret += 1
+            if is_exc is True:
+                ok, why = False, 'an exception taken from the queue is not raised'
+            gen = f.children.get('frame_generator') or (list(f.children.values()) or [None])[0]
+            yields = [y for y in walk_local(gen.node) if isinstance(y, ast.Yield)] if gen is not None else []
+            if gen is None or len(yields) != 1 or not isinstance(yields[0].value, ast.Name) or \
+                    any(isinstance(x, (ast.For, ast.While, ast.AsyncFor)) for x in walk_local(gen.node)):
+                ok, why = False, 'the generator returned does not yield the element exactly once'
+    rep.add('C04.h', 'AbstractMessagingTransport.next_frame_generator / exceptions raised, everything else yielded once',
+            f, ok and n_raise > 0 and n_ret > 0,
+            why or 'isinstance(element, Exception) -> raise; otherwise a generator yielding the element once')
+
+
 def rule_h(ctx):
     """A correctly delimited but undecodable frame produces no frame or one marker: what the decoder hands back on a
     parse failure (shared C12.a; c12 imports this module, hence the late import)."""
@@ -352,4 +397,4 @@ def rule_h(ctx):
 
 
 RULES = [('C04.a', rule_a), ('C04.b', rule_b), ('C04.c', rule_c), ('C04.d', rule_d), ('C04.e', rule_e),
-         ('C04.f', rule_f), ('C12.e', rule_g), ('C12.a', rule_h), ('C04.g', rule_i)]
+         ('C04.f', rule_f), ('C12.e', rule_g), ('C12.a', rule_h), ('C04.g', rule_i), ('C04.h', rule_j)]
